@@ -202,6 +202,14 @@ def width(ctx, rep, rule):
                     for npath, tyname, signed_ in NUMERIC:
                         if ("<%s as " % npath) in own and not fs and not ts and not signed_ and tb == int(tyname[1:]) and fb > tb:
                             widening = True
+                    # the leading octet of a two's-complement INTEGER reinterpreted as i8 (and widened from there) *is* the sign
+                    # extension; any other octet, or any unsigned decoder, must not be sign-extended
+                    if not widening and "<ber::int::SnmpInt as " in own and (fb, fs, tb, ts) == (8, False, 8, True):
+                        src = flow.Prov(body).operand(st["rv"]["op"])
+                        while src[0] == "cast":
+                            src = src[1]
+                        if src == ("idx", ("arg", 1), ("const", 0)):
+                            widening = True
                     key = "%s|cast %s->%s#%d" % (body.path, facts.types[st["rv"]["from"]]["s"], facts.types[st["rv"]["to"]]["s"], blk.idx)
                     rep.check(rule, key, widening, "widening", "a narrowing or sign-changing cast on the value decode path loses bits of the value",
                               body.loc(st["line"]), obligation=True)
@@ -378,10 +386,17 @@ def tail_cover(ctx, rep, rule):
         if not cov:
             rep.inconclusive(rule, b.path + "|reads the last octet", "no read of the contents was tracked", b.loc())
             continue
-        rep.check(rule, b.path + "|reads the last octet", any(o["ok"] for o in cov), "a read reaches h.length",
-                  "no read of the contents is shown to reach the end of the element (%s): the value does not depend on the last - least "
-                  "significant - octet for every length" % "; ".join("%s: %s" % (o["key"].split("|")[1][:40], o["detail"][:80]) for o in cov[:3]),
-                  b.loc(cov[0]["line"]), obligation=True)
+        if any(o["ok"] for o in cov):
+            rep.ok(rule, b.path + "|reads the last octet", "a read reaches h.length", b.loc(cov[0]["line"]), obligation=True)
+        elif any(o["key"].startswith("cover:loop|") and "extent:element" in o["key"] for o in cov):
+            # a read inside a loop is visited once per octet; only its last visit reaches the end, which a per-visit
+            # entailment cannot express
+            rep.inconclusive(rule, b.path + "|reads the last octet", "the contents are read element-wise inside a loop: not decided", b.loc(cov[0]["line"]))
+        else:
+            rep.violation(rule, b.path + "|reads the last octet",
+                          "no read of the contents is shown to reach the end of the element (%s): the value does not depend on the last - least "
+                          "significant - octet for every length" % "; ".join("%s: %s" % (o["key"].split("|")[1][:40], o["detail"][:80]) for o in cov[:3]),
+                          b.loc(cov[0]["line"]), obligation=True)
     if n < 3:
         rep.violation(rule, "floor-numeric-decoders", "%d numeric decode impls found, floor is 3" % n)
 
